@@ -96,7 +96,7 @@ def P(tier):
             "seq_times": [0, 0.125, 1, 2.5], "seq_maxlen": 3, "seq_extra_maxlen": 0,
             "box_list_times": [0, 0.125, 1, 2.5], "box_list_freqs": [0, 125, 1000], "box_maxlen": 3,
             "labels": ["a", "__empty__", "b", "e", "empty", ""],
-            "export_times": [0, 0.125, 0.1875, 1, 2.5], "export_freqs": [0, 125, 1000], "export_srs": [8, 8000, 44100],
+            "export_times": [0, 0.125, 0.1875, 1, 2.5], "export_freqs": [0, 125, 1000], "export_srs": [8, 8000, 11025, 44100],
             "export_maxlen": 3, "indices": [None, -1, 0, 1, 2, 5, 4, -4],
             "decimal_families": [[100, 300], [1000, 1000], [44100, 400], [22050, 400]],
             "decimal_srs": [100, 1000, 8000, 22050, 44100],
@@ -108,7 +108,7 @@ def P(tier):
         "seq_times": [0, 0.125, 0.5, 1, 2.5, 4], "seq_maxlen": 3, "seq_extra_maxlen": 4,
         "box_list_times": [0, 0.125, 1, 2.5], "box_list_freqs": [0, 125, 1000, 4000], "box_maxlen": 3,
         "labels": ["a", "__empty__", "b", "e", "empty", "", "_", "pty", "x", "other", "__empty__ "],
-        "export_times": [0, 0.125, 0.1875, 0.5, 1, 2.5, 4], "export_freqs": [0, 125, 1000, 5000], "export_srs": [8, 8000, 44100, 96000],
+        "export_times": [0, 0.125, 0.1875, 0.5, 1, 2.5, 4], "export_freqs": [0, 125, 1000, 5000], "export_srs": [8, 8000, 11025, 44100, 96000],
         "export_maxlen": 4, "indices": [None, -1, 0, 1, 2, 5, 4, -4, 3, 7, -7],
         "decimal_families": [[100, 1000], [1000, 5000], [44100, 3000], [22050, 3000], [48000, 3000], [10, 100], [3, 300]],
         "decimal_srs": [100, 1000, 8000, 22050, 44100, 48000, 96000, 192000],
@@ -561,6 +561,9 @@ for _perm in itertools.permutations(range(3)):
 
 
 def xreal(t):
+    if t[0] == "k1":
+        # the term of the k1 tags is NAMED like the other tags' key: selecting 'by key' compares keys (labels), never names
+        return data.Tag(term=data.Term(label="k1", name="k2", definition="named like another key"), value=t[1])
     return data.Tag(term=tk(t[0]), value=t[1])
 
 
